@@ -33,6 +33,9 @@ type NCSpec struct {
 	Hello     string    `json:"hello"` // hello document without the delimiter; "" = the server sends no hello
 	NoDelim   bool      `json:"no_delim,omitempty"`
 	Junk      string    `json:"junk,omitempty"` // bytes before the hello document
+	// HelloTrailer: bytes right behind the hello's delimiter (many servers end every message with a
+	// line feed)
+	HelloTrailer string `json:"hello_trailer,omitempty"`
 	Has10     bool      `json:"has10"`
 	Has11     bool      `json:"has11"`
 	Echo      bool      `json:"echo,omitempty"` // the transport echoes the client's bytes back
@@ -79,7 +82,7 @@ func (s *Netconf) Start() []simnet.Seg {
 	s.msgSeq++
 	b := s.Spec.Junk + s.Spec.Hello
 	if !s.Spec.NoDelim {
-		b += ncDelim
+		b += ncDelim + s.Spec.HelloTrailer
 	}
 
 	return []simnet.Seg{{B: []byte(b), Msg: s.msgSeq, Delay: time.Duration(s.Spec.HelloLate) * time.Microsecond}}
